@@ -186,6 +186,61 @@ theorem deliver_keeps_own_class (cfg : Cfg) (hl : cfg.lmtp = false) (s : Script)
         exact ⟨x, hxm, by simp [hxe]⟩, rfl⟩
     · simp [clsOf, hper, List.getElem?_map, hc, hce]
 
+theorem mergeLmtp_keeps_refused (per : List Cls) (es : List Nat) (i : Nat) (p : Cls) (h : per[i]? = some p) (hp : p ≠ .ok) :
+    (mergeLmtp per es)[i]? = some p := by
+  induction per generalizing i es with
+  | nil => simp at h
+  | cons q qs ih =>
+    cases i with
+    | zero =>
+      simp only [List.getElem?_cons_zero, Option.some.injEq] at h; subst h
+      cases q with
+      | ok => exact absurd rfl hp
+      | perm => cases es <;> simp [mergeLmtp]
+      | temp => cases es <;> simp [mergeLmtp]
+    | succ n =>
+      simp only [List.getElem?_cons_succ] at h
+      cases q with
+      | ok => cases es with
+        | nil => simp [mergeLmtp, ih [] n h]
+        | cons e rest => simp [mergeLmtp, ih rest n h]
+      | perm => cases es <;> simp [mergeLmtp, ih _ n h]
+      | temp => cases es <;> simp [mergeLmtp, ih _ n h]
+
+theorem accepted_count (rc : List Nat) :
+    ((rc.map fun c => if isError c then factory c else Cls.ok).filter (· == .ok)).length = (rc.filter fun c => !isError c).length := by
+  induction rc with
+  | nil => rfl
+  | cons x xs ih =>
+    by_cases hx : isError x = true
+    · have hf : (factory x == Cls.ok) = false := by
+        have := factory_not_ok x
+        cases hfx : factory x <;> simp_all
+      simp [List.filter_cons, hx, hf, ih]
+    · simp only [Bool.not_eq_true] at hx
+      simp [List.filter_cons, hx, ih]
+
+/-- **LMTP: the same** — a recipient refused at RCPT time keeps the class of that reply, whatever the per-recipient end-of-data
+    replies of the others are (they are dealt out to the accepted recipients only). -/
+theorem deliver_keeps_own_class_lmtp (cfg : Cfg) (hl : cfg.lmtp = true) (s : Script) (mail data : Nat) (rc eods : List Nat)
+    (hm : s.mail = .code mail) (hr : s.rcpts = rc.map .code) (hd : s.data = .code data)
+    (he : s.eodPer.take ((rc.filter fun c => !isError c).length) = eods.map .code)
+    (hconv : ((!s.eightBit && cfg.body8bit && !cfg.hasEncoder) || (cfg.utf8Addr && !s.smtputf8)) = false)
+    (hmail : isError mail = false) (i : Nat) (c : Nat) (hc : rc[i]? = some c) (hce : isError c = true) :
+    clsOf (deliver cfg s) i = some (factory c) := by
+  simp only [deliver, hconv, Bool.false_eq_true, if_false, hm, readCode, hmail, Bool.and_false, hr, readCodes_map_code, hd, hl]
+  cases hcr : checkReplies mail rc data with
+  | inl r => exact checkReplies_keeps_own hmail hcr i c hc hce
+  | inr per =>
+    obtain ⟨_, _, hper⟩ := checkReplies_inr hcr
+    simp only [if_true]
+    have hlen : (per.filter (· == .ok)).length = (rc.filter fun c => !isError c).length := by
+      rw [hper]; exact accepted_count rc
+    rw [hlen, he, readCodes_map_code]
+    simp only [clsOf]
+    apply mergeLmtp_keeps_refused _ _ i _ _ (factory_not_ok c)
+    simp [hper, List.getElem?_map, hc, hce]
+
 /-- **SMTP: delivered only if accepted.** If recipient `i` is reported delivered, the script gave
     a well-formed, non-error reply to its RCPT, to MAIL, to DATA and to the message data. -/
 theorem smtp_delivered_only_if_accepted (cfg : Cfg) (hl : cfg.lmtp = false) (s : Script) (i : Nat)
